@@ -25,13 +25,13 @@ import (
 )
 
 type c07Plan struct {
-	Seed     int64
-	Params   verifgen.Params
-	Entries  []verifgen.Entry
-	CrashAt  int // position in Entries of the PANIC line
-	SnapAt   int // take a snapshot after this many entries (-1: none)
-	SnapAll  bool
-	Extra    []verifgen.Entry
+	Seed             int64
+	Params           verifgen.Params
+	Entries          []verifgen.Entry
+	CrashAt          int // position in Entries of the PANIC line
+	SnapAt           int // take a snapshot after this many entries (-1: none)
+	SnapAll          bool
+	Extra            []verifgen.Entry
 	SnapAfterRestart bool
 	RestoreInChild   bool
 }
